@@ -18,7 +18,8 @@ def graph_clustering(adjacency_matrix, nodes, clustering='cc', **kwargs):
 
     Returns: DataFrame with columns seq, cluster assignment 
     """
-    edges = np.array(adjacency_matrix)[:, :2]
+    # an empty neighbor list (no pair within range) has no second axis to slice
+    edges = np.array(adjacency_matrix)[:, :2] if len(adjacency_matrix) > 0 else []
 
     if clustering == 'DBSCAN':
         a = adjacency_matrix
